@@ -216,6 +216,12 @@ func Worker(prop *Property, tier string, seed uint64, idx, of int, w *bufio.Writ
 			} else {
 				min := Minimise(prop, plan, v, 90*time.Second)
 				rec.Plan = min
+				if mo := execGuard(prop, min); mo.Violation != nil && mo.Violation.Signature == v.Signature {
+					mo.Known = out.Known
+					out, v = mo, mo.Violation
+					rec.Out = mo
+				}
+				rec.OpsN = len(min.Ops)
 				rec.Replay = WriteReplay(verifDir, prop.ID, runSeed, min, v, out)
 				enc.Encode(rec)
 				w.Flush()
